@@ -15,6 +15,9 @@ Record lzwin := mkLzwin {
 
 Definition bget (w : lzwin) (i : Z) : Z := aget 0 (w_buf w) i.
 
+(* specification-level history: a list, newest byte first; positions before the start read as 0 *)
+Definition hnth (hist : list Z) (d : Z) : Z := match zth hist d with Some b => b | None => 0 end.
+
 Definition set_buf (w : lzwin) (b : ptree) : lzwin :=
   mkLzwin b (w_size w) (w_start w) (w_pos w) (w_full w) (w_limit w) (w_pending_len w) (w_pending_dist w).
 
